@@ -3350,6 +3350,12 @@ func (c S3ApiController) HeadObject(ctx *fiber.Ctx) error {
 		partNumber = &partNumberQuery
 	}
 
+	// a specific version is read with s3:GetObjectVersion, as in GetObject
+	action := auth.GetObjectAction
+	if versionId != "" {
+		action = auth.GetObjectVersionAction
+	}
+
 	err := auth.VerifyAccess(ctx.Context(), c.be,
 		auth.AccessOptions{
 			Readonly:      c.readonly,
@@ -3359,7 +3365,7 @@ func (c S3ApiController) HeadObject(ctx *fiber.Ctx) error {
 			Acc:           acct,
 			Bucket:        bucket,
 			Object:        key,
-			Action:        auth.GetObjectAction,
+			Action:        action,
 		})
 	if err != nil {
 		return SendResponse(ctx, err,
